@@ -426,6 +426,10 @@ pub fn cmp(_level: u8, f: &mut dyn FnMut(Case)) {
             (atom(&format!("{}c", stem)), atom(&format!("{}d", stem))),
             (atom(&stem), atom(&stem)),
             (atom(&format!("{}é", stem)), atom(&format!("{}z", stem))),
+            // two differences inside one machine word, pulling in opposite directions
+            (atom(&format!("{}bz{}", stem, stem)), atom(&format!("{}ca{}", stem, stem))),
+            (atom(&format!("b{}a", stem)), atom(&format!("a{}b", stem))),
+            (atom(&format!("{}bxxxxa", stem)), atom(&format!("{}axxxxb", stem))),
             (T::Int(10i64.pow(n.min(18) as u32) - 1), T::Int(10i64.pow(n.min(18) as u32) - 2)),
             (T::Float(0.1 * n as f64), T::Int(n as i64 / 10)),
         ];
@@ -433,6 +437,26 @@ pub fn cmp(_level: u8, f: &mut dyn FnMut(Case)) {
             for rel in Rel::ALL {
                 f(Case { family: "cmp@scale", prog: vec![rule("p", vec![atom("ok"), v("$U")], G::And(vec![G::Unify(v("$A"), x.clone()), G::Cmp(rel, v("$A"), y.clone())]))], queries: vec![cplx("p", vec![v("$Z"), v("$W")])] });
             }
+        }
+    }
+}
+
+/// C14: an operand that is k bindings away from its value (in one clause, and down a recursion).
+pub fn cmp_chain(level: u8, f: &mut dyn FnMut(Case)) {
+    let mut ks = sizes(level);
+    for k in [255usize, 256, 257, 300] {
+        if !ks.contains(&k) {
+            ks.push(k);
+        }
+    }
+    for &k in &ks {
+        for up in [true, false] {
+            let mut goals: Vec<G> = (1..k).map(|i| if up { G::Unify(vn(i), vn(i + 1)) } else { G::Unify(vn(i + 1), vn(i)) }).collect();
+            goals.push(G::Unify(vn(if up { k } else { 1 }), T::Int(5)));
+            goals.push(G::Cmp(Rel::Gt, vn(if up { 1 } else { k }), T::Int(3)));
+            goals.push(G::Cmp(Rel::Le, T::Int(5), vn(k / 2 + 1)));
+            goals.push(G::Unify(v("$X"), vn(1)));
+            f(Case { family: "cmp@scale", prog: vec![rule("p", vec![v("$X")], G::And(goals))], queries: vec![cplx("p", vec![v("$Z")])] });
         }
     }
 }
